@@ -288,6 +288,7 @@ func (m *memBrainWatch) Send(*proto.WatchResponse) error { atomic.AddInt64(&m.n,
 // ---------- system under test ----------
 
 type sut struct {
+	peers   *peers
 	inner   backend.Backend
 	rec     *recBackend
 	stub    *leader.Stub
@@ -330,6 +331,7 @@ func newSut(scratch string) (*sut, error) {
 	s.proxy = &recProxy{disabled: etcdproxy.NewDisabledEtcdProxy()}
 	s.syncer = revision.NewRevisionSyncer(s.rec, s.m, s.stub, nil)
 	p := &peers{Stub: s.stub, RevisionSyncer: s.syncer, recProxy: s.proxy}
+	s.peers = p
 	s.etcd = etcd.New(s.rec, s.m, p)
 	s.brain = brain.New(s.rec, s.m, p)
 	return s, nil
@@ -357,6 +359,10 @@ func (s *sut) configure(c config) {
 	}
 	atomic.StoreUint64(&s.st.rev, leaderRev)
 	s.inner.SetCurrentRevision(baseRev) // every case starts from the same local read revision
+	// ... and from a syncer that has installed nothing yet (the syncer remembers the largest revision it installed)
+	_ = s.syncer.Close()
+	s.syncer = revision.NewRevisionSyncer(s.rec, s.m, s.stub, nil)
+	s.peers.RevisionSyncer = s.syncer
 	s.rec.take()
 	s.proxy.take()
 	atomic.StoreInt64(&s.fetches, 0)
@@ -686,6 +692,8 @@ func roleCoq(l bool) string {
 // ---------- part 2: interleavings of two follower reads ----------
 
 type tstate struct {
+	refetch bool   // the thread is calling the single flight again after joining an older fetch
+	val     uint64 // the fetched revision the thread holds
 	pc      string // init begun wait handled joined got set done
 	th      *gthread
 	begin   uint64
@@ -720,8 +728,13 @@ func waitPoint(th *gthread, want string, d time.Duration) (string, bool) {
 	}
 }
 
-// runSchedule executes the labels on the real code; returns per-thread observations, the set log
-// and "" or a description of why the schedule could not be realised.
+// runSchedule executes the labels on the real code, mirroring Model/Roles.v `step true true` (shared flight, joiners of an
+// older fetch fetch again; installRevision = mutex + synced).  Gates: "sync" (before the single flight), the /status handler (enter,
+// reply), "set" (inside SetCurrentRevision, i.e. inside the syncer's critical section), "list" (before the scan).
+// There is no gate between the return of the fetch and the mutex: the schedules are canonical (the step that takes the
+// mutex follows the reply at once).  Where the model says a thread waits for the mutex the driver checks that it does;
+// if it reaches SetCurrentRevision while another thread is parked inside it, the exclusion is absent and the driver
+// continues adversarially (late value last) so that the consequence is observed.
 func (s *sut) runSchedule(ls []label, leader0 uint64) ([2]*tstate, []string, string) {
 	s.configure(config{leader: false, proxy: false, reach: "ok"})
 	atomic.StoreUint64(&s.st.rev, leader0)
@@ -729,11 +742,92 @@ func (s *sut) runSchedule(ls []label, leader0 uint64) ([2]*tstate, []string, str
 	defer atomic.StoreInt32(&s.st.gated, 0)
 	ts := [2]*tstate{{pc: "init"}, {pc: "init"}}
 	owner := -1
+	mutex := -1      // mirror: holder of the syncer's mutex
+	var synced uint64 // mirror: revisionSyncer.synced
+	installer := -1  // real thread parked at the "set" gate
 	d := 2 * time.Second
-	release := func(t *tstate) { t.th.rel() }
 	fail := ""
+	adversarial := false
+	abandoned := "" // why the labels were given up (the rest is run to completion without them)
+	// arriveLock mirrors arrive_lock for thread u holding value v and checks the real thread
+	var arriveLock func(u int)
+	arriveLock = func(u int) {
+		t := ts[u]
+		switch {
+		case mutex >= 0:
+			t.pc = "blocked"
+			// the real thread must not get anywhere (unless it is the one that won the race for the same value)
+			if installer == u {
+				return
+			}
+			select {
+			case p := <-t.th.arrive:
+				t.th.parked = true
+				if p == "set" && installer >= 0 && installer != u {
+					// two threads inside SetCurrentRevision: no mutual exclusion. Let the newcomer's value land first,
+					// then the older one, and see what the reads return.
+					adversarial = true
+					t.th.rel()
+					if q, ok := waitPoint(t.th, "list", d); !ok {
+						fail = "adversarial: newcomer did not reach List: " + q
+					}
+					t.pc = "set"
+				} else {
+					fail = "thread expected to wait for the mutex arrived at " + p
+				}
+			case <-time.After(30 * time.Millisecond):
+			}
+		case t.val > synced:
+			mutex = u
+			t.pc = "installing"
+			// some real thread holding this value reaches SetCurrentRevision (either of two that got the same reply)
+			o := ts[1-u]
+			if installer < 0 {
+				var oa chan string
+				if o.th != nil && (o.pc == "got" || o.pc == "blocked") && o.val == t.val {
+					oa = o.th.arrive
+				}
+				select {
+				case p := <-t.th.arrive:
+					t.th.parked = true
+					if p == "set" {
+						installer = u
+					} else {
+						fail = "thread expected inside SetCurrentRevision arrived at " + p
+					}
+				case p := <-oa:
+					o.th.parked = true
+					if p == "set" {
+						installer = 1 - u
+					} else {
+						fail = "thread expected inside SetCurrentRevision arrived at " + p
+					}
+				case <-time.After(d):
+					fail = "no thread reached SetCurrentRevision"
+				}
+			}
+		default:
+			// dropped: straight to the scan
+			t.pc = "set"
+			if t.th.parked {
+				return // the twin that won the race for the mutex: it is at List already
+			}
+			if p, ok := waitPoint(t.th, "list", d); !ok {
+				if p == "set" {
+					// the code installed a revision that is not larger: let it, the set log and the reads will show it
+					adversarial = true
+					t.th.rel()
+					if q, ok2 := waitPoint(t.th, "list", d); !ok2 {
+						fail = "thread did not reach List after an unexpected set: " + q
+					}
+				} else {
+					fail = "thread whose revision is dropped did not reach List: " + p
+				}
+			}
+		}
+	}
 	for _, l := range ls {
-		if fail != "" {
+		if fail != "" || abandoned != "" {
 			break
 		}
 		if l.adv {
@@ -767,7 +861,25 @@ func (s *sut) runSchedule(ls []label, leader0 uint64) ([2]*tstate, []string, str
 			}
 			t.pc = "begun"
 		case "begun":
-			release(t)
+			if t.refetch {
+				t.refetch = false
+				// the thread must come back with a fetch of its own; if it goes on with the revision of the flight it
+				// joined, let everything run to the end and see what the reads return
+				select {
+				case <-s.st.enter:
+					owner = l.t
+					t.pc = "wait"
+				case p := <-t.th.arrive:
+					t.th.parked = true
+					adversarial = true
+					abandoned = "a read that joined an older fetch did not fetch again (reached " + p + ")"
+				case <-time.After(300 * time.Millisecond):
+					adversarial = true
+					abandoned = "a read that joined an older fetch did not fetch again"
+				}
+				break
+			}
+			t.th.rel()
 			if owner < 0 {
 				select {
 				case <-s.st.enter:
@@ -777,7 +889,6 @@ func (s *sut) runSchedule(ls []label, leader0 uint64) ([2]*tstate, []string, str
 					fail = "no /status request arrived"
 				}
 			} else {
-				// joins the flight in progress: blocks inside singleflight.Do
 				time.Sleep(3 * time.Millisecond)
 				select {
 				case <-s.st.enter:
@@ -790,33 +901,53 @@ func (s *sut) runSchedule(ls []label, leader0 uint64) ([2]*tstate, []string, str
 		case "wait":
 			s.st.goEnter <- struct{}{}
 			select {
-			case <-s.st.handled:
+			case v := <-s.st.handled:
 				t.pc = "handled"
+				t.val = v
 			case <-time.After(d):
 				fail = "handler did not read the revision"
 			}
 		case "handled":
 			s.st.goReply <- struct{}{}
 			owner = -1
-			if p, ok := waitPoint(t.th, "set", d); !ok {
-				fail = "owner did not reach SetCurrentRevision: " + p
-			}
 			t.pc = "got"
-			o := ts[1-l.t]
-			if o.pc == "joined" {
-				if p, ok := waitPoint(o.th, "set", d); !ok {
-					fail = "joiner did not reach SetCurrentRevision: " + p
-				}
-				o.pc = "got"
+			if o := ts[1-l.t]; o.pc == "joined" {
+				// the joiner of a flight that had started before it arrived calls the single flight again (it is past
+				// the sync gate: no gate to release)
+				o.pc = "begun"
+				o.refetch = true
+				o.joined = false
 			}
 		case "got":
-			release(t)
-			if p, ok := waitPoint(t.th, "list", d); !ok {
-				fail = "thread did not reach List: " + p
+			arriveLock(l.t)
+		case "installing":
+			if installer < 0 {
+				fail = "no thread is inside SetCurrentRevision"
+				break
 			}
+			real := ts[installer]
+			real.th.rel()
+			if p, ok := waitPoint(real.th, "list", d); !ok {
+				fail = "thread did not reach List after SetCurrentRevision: " + p
+			}
+			synced = t.val
+			mutex = -1
+			installer = -1
 			t.pc = "set"
+			if o := ts[1-l.t]; o.pc == "blocked" && fail == "" {
+				o.pc = "got"
+				arriveLock(1 - l.t)
+				// a thread that was the real installer while the model's installer was the other one is at List already
+			}
 		case "set":
-			release(t)
+			if !t.th.parked {
+				// the real thread lost the race for the mutex to its twin and has reached List only now
+				if p, ok := waitPoint(t.th, "list", d); !ok {
+					fail = "thread did not reach List: " + p
+					break
+				}
+			}
+			t.th.rel()
 			if p, ok := waitPoint(t.th, "done", d); !ok {
 				fail = "thread did not finish: " + p
 			}
@@ -828,7 +959,49 @@ func (s *sut) runSchedule(ls []label, leader0 uint64) ([2]*tstate, []string, str
 			}
 		}
 	}
-	// the set log gives each thread's fetched value
+	if abandoned != "" && fail == "" {
+		var ths []*gthread
+		for _, t := range ts {
+			if t.th != nil {
+				ths = append(ths, t.th)
+			}
+		}
+		s.drain(ths...)
+		for _, t := range ts {
+			if t.th == nil {
+				continue
+			}
+			select {
+			case <-t.th.done:
+				t.pc = "done"
+				if t.err == nil && t.resp != nil && t.resp.Header != nil {
+					t.scan = uint64(t.resp.Header.Revision)
+				}
+			default:
+			}
+		}
+	} else if adversarial && fail == "" {
+		// finish whatever the labels no longer describe: older value last, then the scans
+		for k := 0; k < 2; k++ {
+			for _, t := range ts {
+				if t.th == nil || t.pc == "done" {
+					continue
+				}
+				for i := 0; i < 3 && t.pc != "done"; i++ {
+					if t.th.parked {
+						t.th.rel()
+					}
+					p, _ := waitPoint(t.th, "done", d)
+					if p == "done" {
+						t.pc = "done"
+						if t.err == nil && t.resp != nil && t.resp.Header != nil {
+							t.scan = uint64(t.resp.Header.Revision)
+						}
+					}
+				}
+			}
+		}
+	}
 	calls := s.rec.take()
 	var sets []string
 	for _, c := range calls {
@@ -1003,49 +1176,91 @@ func (s *sut) runOverlap(mode string) (lib.Case, string) {
 		JSON: j, Outcomes: []string{"overlap:" + bresp}}, fail
 }
 
-// mirror of the enabledness of Model/Roles.v, to generate complete enabled schedules
+// mirror of Model/Roles.v (step true true) to generate complete, enabled, canonical schedules: the step that takes
+// the syncer's mutex follows the reply at once (there is no gate in between)
 func genSchedule(r *lib.Rand, nAdv int) []label {
-	pc := [2]int{0, 0} // 0 init 1 begun 2 wait 3 handled 4 joined 5 got 6 set 7 done
-	owner := -1
+	const (
+		pInit = iota
+		pBegun
+		pWait
+		pHandled
+		pJoined
+		pGot
+		pBlocked
+		pInstalling
+		pSet
+		pDone
+	)
+	pc := [2]int{pInit, pInit}
+	val := [2]uint64{}
+	var leader, synced uint64 = 10, 0
+	owner, mutex := -1, -1
 	var ls []label
 	adv := nAdv
-	for pc[0] != 7 || pc[1] != 7 {
+	var arrive func(u int)
+	arrive = func(u int) {
+		switch {
+		case mutex >= 0:
+			pc[u] = pBlocked
+		case val[u] > synced:
+			mutex = u
+			pc[u] = pInstalling
+		default:
+			pc[u] = pSet
+		}
+	}
+	enabled := func(t int) bool { return pc[t] != pDone && pc[t] != pJoined && pc[t] != pBlocked }
+	step := func(t int) {
+		ls = append(ls, label{t: t})
+		switch pc[t] {
+		case pInit:
+			pc[t] = pBegun
+		case pBegun:
+			if owner < 0 {
+				owner = t
+				pc[t] = pWait
+			} else {
+				pc[t] = pJoined
+			}
+		case pWait:
+			pc[t] = pHandled
+			val[t] = leader
+		case pHandled:
+			pc[t] = pGot
+			owner = -1
+			o := 1 - t
+			joiner := pc[o] == pJoined
+			// canonical: the owner goes for the mutex at once; a joiner calls the single flight again at once
+			ls = append(ls, label{t: t})
+			arrive(t)
+			if joiner {
+				ls = append(ls, label{t: o})
+				owner = o
+				pc[o] = pWait
+			}
+		case pInstalling:
+			synced = val[t]
+			mutex = -1
+			pc[t] = pSet
+			if o := 1 - t; pc[o] == pBlocked {
+				arrive(o)
+			}
+		case pSet:
+			pc[t] = pDone
+		}
+	}
+	for enabled(0) || enabled(1) {
 		if adv > 0 && r.Chance(1, 4) {
 			ls = append(ls, label{adv: true})
+			leader++
 			adv--
 			continue
 		}
 		t := r.Intn(2)
-		if pc[t] == 7 || pc[t] == 4 {
+		if !enabled(t) {
 			t = 1 - t
 		}
-		if pc[t] == 7 || pc[t] == 4 {
-			break
-		}
-		ls = append(ls, label{t: t})
-		switch pc[t] {
-		case 0:
-			pc[t] = 1
-		case 1:
-			if owner < 0 {
-				owner = t
-				pc[t] = 2
-			} else {
-				pc[t] = 4
-			}
-		case 2:
-			pc[t] = 3
-		case 3:
-			pc[t] = 5
-			owner = -1
-			if pc[1-t] == 4 {
-				pc[1-t] = 5
-			}
-		case 5:
-			pc[t] = 6
-		case 6:
-			pc[t] = 7
-		}
+		step(t)
 	}
 	return ls
 }
@@ -1054,15 +1269,17 @@ func S(t int) label { return label{t: t} }
 
 var adv = label{adv: true}
 
-// the two witnesses of DESIGN.md / Props/C18.v, as label lists (A = 0, B = 1)
+// the schedule of the former finding C18-F1, as far as the gates allow: A is inside SetCurrentRevision(30) (and holds the
+// syncer's mutex), the leader moves to 32, B fetches 32 and has to wait; A finishes, B installs 32; both scan at 32.
+// Without the mutual exclusion and the comparison B's value lands first and A's late one lowers the revision.
 func witnessSetRace() []label {
-	// A fetches 10 and is about to set; the leader moves to 12; B fetches 12, sets it; A's late set 10; B loads 10
-	return []label{S(0), S(0), S(0), S(0), adv, adv, S(1), S(1), S(1), S(1), S(1), S(0), S(1), S(0)}
+	return []label{S(0), S(0), S(0), S(0), S(0), adv, adv, S(1), S(1), S(1), S(1), S(1), S(0), S(1), S(1), S(0)}
 }
+
+// the schedule of the former finding C18-F3: A's request has been answered by the leader (30) but the reply is still on
+// its way; the leader moves to 32; B begins and joins A's flight; when it ends B fetches again (32): both scan at 32
 func witnessSharedFlight() []label {
-	// A's request has been answered by the leader (10) but the reply is still on its way; the leader moves to 12;
-	// B begins and joins A's flight: both get 10
-	return []label{S(0), S(0), S(0), adv, adv, S(1), S(1), S(0), S(0), S(0), S(1), S(1)}
+	return []label{S(0), S(0), S(0), adv, adv, S(1), S(1), S(0), S(0), S(1), S(1), S(1), S(1), S(0), S(1), S(1), S(0)}
 }
 
 func main() {
